@@ -257,7 +257,12 @@ func cacheCore(w *World, r *Report, la *LockAn, full bool) {
 		okDel := del != nil
 		if okDel {
 			_, okDel = la.HeldAt(del)["param:cache.mutex"]
-			okDel = okDel && len(CondsOf(del.Block())) == 0
+			// unconditional, or only skipped when the key is not there (nothing to delete then)
+			for _, cd := range CondsOf(del.Block()) {
+				if !(cd.Pol && Path(cd.V) == "param:cache.cache[param:key]#1") {
+					okDel = false
+				}
+			}
 		}
 		sub := fieldStores(ck, "currentCacheSize")
 		okSub := len(sub) == 1
